@@ -123,3 +123,10 @@ Proof.
   destruct (xorb (name_in l' labs) inv); [assumption | discriminate].
 Qed.
 End Subset.
+
+(* an empty mapping (given explicitly) renames nothing; labels that are no keys of the mapping are kept *)
+Corollary rename_empty_mapping a s t : getitem (rename_labels_inplace a []) s t = getitem a s t.
+Proof. rewrite rename_getitem. destruct (getitem a s t) as [l|]; reflexivity. Qed.
+Corollary rename_unmapped_label_kept a mapping s t l :
+  getitem a s t = Some l -> d_get l mapping = None -> getitem (rename_labels_inplace a mapping) s t = Some l.
+Proof. intros H Hn. rewrite rename_getitem, H. cbn [option_map]. unfold map_get. now rewrite Hn. Qed.
